@@ -62,7 +62,83 @@ def _native(model, obname):
     return {"confirmed": False, "tried": 2 * len(cases)}
 
 
+# ------------------------------------------------------------------------------------------------------------
+# InterpretCompilerDirectives.try_to_parse_directive: the value a scoped directive (decorator / with-block) denotes
+
+PTT = "Cython/Compiler/ParseTreeTransforms.py"
+DEFAULTS = z3.Int("ghost.builtin_directive_defaults")       # the dict returned by Options.get_directive_defaults()
+IS_NONE_NODE = z3.Function("isinstance_NoneNode", z3.IntSort(), z3.BoolSort())
+IS_BOOL_NODE = z3.Function("isinstance_BoolNode", z3.IntSort(), z3.BoolSort())
+
+
+def _scoped_post(e):
+    r = e.result
+    if not isinstance(r, tuple) or len(r) != 2:
+        return False
+    a0 = e.h0.el(e.args, 0)
+    n_args = e.h0.len(e.args)
+    none_form = And(n_args == 1, IS_NONE_NODE(a0))
+    bool_form = And(e.kwds == -1, n_args == 1, IS_BOOL_NODE(a0))
+    return And(r[0] == e.optname,
+               Implies(none_form, r[1] == e.h0.val(DEFAULTS, e.optname)),           # X(None): the BUILT-IN default of X
+               Implies(Not(none_form), And(bool_form, r[1] == e.h0.fld("value", a0))))
+
+
+def _scoped_raise_ok(e):
+    a0 = e.h0.el(e.args, 0)
+    n_args = e.h0.len(e.args)
+    return Not(Or(And(n_args == 1, IS_NONE_NODE(a0)), And(e.kwds == -1, n_args == 1, IS_BOOL_NODE(a0))))
+
+
+def _native_scoped(model, obname):
+    """compile a module that sets cdivision in its header and resets it with cython.cdivision(None) in a scope"""
+    from dv import cextract
+    src = ("# cython: language_level=3\n# cython: cdivision=True\ncimport cython\n"
+           "@cython.cdivision(None)\ndef f(int a, int b):\n    return a // b\n"
+           "def g(int a, int b):\n    with cython.cdivision(None):\n        return a % b\n")
+    try:
+        ctext, cfile = cextract.compile_pyx(src, name="dvdirective")
+    except Exception as ex:
+        return {"confirmed": False, "note": "compile failed: %r" % ex}
+    uses_py_div = "__Pyx_div_int" in ctext and "__Pyx_mod_int" in ctext
+    if not uses_py_div:
+        return {"inputs": {"module": "header cdivision=True; @cython.cdivision(None) / with cython.cdivision(None)"},
+                "actual": "the scoped code uses C division (the None argument did not restore the built-in default False)",
+                "expected": "Python division helpers __Pyx_div_int / __Pyx_mod_int in the scoped code", "confirmed": True, "obligation": obname,
+                "how": "module compiled with the working-tree compiler; generated C inspected for the division helpers"}
+    return {"confirmed": False, "tried": 1}
+
+
+def _scoped_unit():
+    T = "obj:InterpretCompilerDirectives"
+    N = "obj:Node"
+    fields = {T: {"context": "ref:obj:Context", "directives": "ref:dict", "directive_defaults": "ref:dict"}, "obj:Context": {"cpp": "bool"},
+              N: {"value": "any"}}
+    callees = {
+        "Options.directive_types.get": Callee("Options.directive_types.get", ["name"], result_kind=lambda ex, e: __import__("dv.pyfe", fromlist=["POpaque"]).POpaque(z3.Int("ghost.directive_type"))),
+        "Options.get_directive_defaults": Callee("Options.get_directive_defaults", [], result_kind=lambda ex, e: __import__("dv.pyfe", fromlist=["PRef"]).PRef("dict", DEFAULTS)),
+    }
+    return PyUnit("ParseTreeTransforms.InterpretCompilerDirectives.try_to_parse_directive[bool]", {"C41": None}, PTT,
+                  "InterpretCompilerDirectives.try_to_parse_directive",
+                  [("self", "ref:" + T), ("optname", "any"), ("args", "ref:list"), ("kwds", "any"), ("pos", "any")],
+                  requires=[("kernel: the directive's declared type is bool", lambda e: z3.Int("ghost.directive_type") == BOOL),
+                            ("the directive is neither np_pythran nor exceptval (they have their own rules)",
+                             lambda e: And(e.optname != intern_id("np_pythran"), e.optname != intern_id("exceptval"))),
+                            ("the built-in defaults know the directive; args is a list", lambda e: And(e.h0.has(DEFAULTS, e.optname), e.h0.len(e.args) >= 0)),
+                            ("the built-in defaults are their own dict, not the transform's current directives",
+                             lambda e: And(DEFAULTS != e.h0.fld("directives", e.self), DEFAULTS != e.h0.fld("directive_defaults", e.self)))],
+                  ensures=[("X(<bool literal>) denotes that value; X(None) denotes the BUILT-IN default of X (not the module's current value)", _scoped_post)],
+                  raises={"PostParseError": _scoped_raise_ok},
+                  callees=callees, native=_native_scoped, search=lambda seed, ob: _native_scoped({}, ob),
+                  options={"fields": fields, "opaque_names": ("bool", "int", "str", "type", "dict", "list"), "elem_kind": {"list": "ref:" + N},
+                           "dynamic_classes": (N,), "dict_val_kind": "any", "merge": False, "modules": {}})
+
+
 def units(tier):
+    return _units_parse(tier) + [_scoped_unit()]
+
+
+def _units_parse(tier):
     get = Callee("directive_types.get", ["name"], result_kind=lambda ex, e: __import__("dv.pyfe", fromlist=["POpaque"]).POpaque(z3.Int("ghost.directive_type")))
     u = PyUnit("Options.parse_directive_value[bool]", {"C41": None}, FILE, "parse_directive_value",
                [("name", "any"), ("value", "any"), ("relaxed_bool", "bool")],
